@@ -230,12 +230,20 @@ theorem level2_some {c p : List Var} {is : List Iv} (h : level2 c p = some is) :
       simpa using hmem
   · cases h
 
+theorem eval_astPop (v : Var) (h : canonVar v = true) : eval lt (astPop v) = .ok (.var v) := by
+  unfold astPop
+  split
+  · rename_i hv
+    subst hv
+    rfl
+  · exact eval_astVar lt v h
+
 theorem eval_probHead (pop : Option Var) (h : canonPop pop = true) :
     eval lt (astProbHead pop) = .ok (.pBuilder pop none) := by
   cases pop with
   | none => rfl
   | some v =>
-    simp only [astProbHead, eval, eval_astVar lt v h]
+    simp only [astProbHead, eval, eval_astPop lt v h]
     rfl
 
 /-- the object `+X` / `X` written in a `P[…]` subscript -/
